@@ -66,6 +66,21 @@ def handleRelogin09 (l : Line) : List Verdict :=
                          (if !newopens then [("C09.key_separation.own_key_fails", "the store value does not open under the data key carried by the user's own (current) cookie")] else [])))
   r.getD [Verdict.bad "relogin09"]
 
+/-- several users' sessions used concurrently through one replica: every request is served with the token of the session whose cookie it carried -/
+def handleConcurrent09 (l : Line) : List Verdict :=
+  let r : Option (List Verdict) := do
+    let n ← l.nat? "n"
+    let foreign ← l.nat? "foreign"
+    let unauth ← l.nat? "unauth"
+    let infobad ← l.nat? "infobad"
+    let crashed ← l.nat? "crashed"
+    pure (verdictsOf
+      ((if unauth > 0 then [s!"{unauth} of {n} concurrent requests with an untouched cookie were forwarded WITHOUT a token (model: every one authenticated)"] else []) ++
+       (if infobad > 0 then [s!"{infobad} concurrent session-info requests with an untouched cookie were not answered 200"] else []))
+      ((if foreign > 0 then [("C09.key_separation.concurrent", s!"{foreign} of {n} concurrent requests were served with ANOTHER user's token")] else []) ++
+       (if crashed > 0 then [("C09.crash_on_tampered", s!"{crashed} concurrent requests answered 5xx")] else [])))
+  r.getD [Verdict.bad "concurrent09"]
+
 def handleOutScan (l : Line) : List Verdict :=
   let r : Option (List Verdict) := do
     let found ← l.bool? "found"
